@@ -399,6 +399,11 @@ def cases(tier, seed=0):
     if nr == nrho and kind != "pair":
       nrho += 1
     cs.append(Case("excel %s %s nr=%d nrho=%d" % (kind, "/".join(order), nr, nrho), excel_case, kind=kind, elements=order, nr=nr, nrho=nrho, declared=decl))
+  # labels of which one continues another with a character that sorts before '-' (an atom and its ion): orderings of the
+  # "A-B" heading strings and of the (A, B) pairs differ there
+  for kind in ("pair", "eam", "eam_fs"):
+    for order in ((("Ag", "Ag+", "O"),) if tier == "quick" else (("Ag", "Ag+", "O"), ("O", "Ag+", "Ag"), ("Ag+", "Ag"))):
+      cs.append(Case("excel %s %s ion labels" % (kind, "/".join(order)), excel_case, kind=kind, elements=order, nr=3, nrho=2))
   # one python object serving as embedding function and as density / pair function (grids of different size)
   for kind, order, sh in (("eam", ("Cu", "Al"), [("F_Cu", "rho_Cu")]), ("eam", ("Al",), [("F_Al", "rho_Al", "phi_Al_Al")]),
                           ("eam_fs", ("Cu", "Al"), [("F_Al", "rho_Al_Cu")]), ("eam_fs", ("Zr", "Cu"), [("F_Zr", "rho_Cu_Zr", "phi_Cu_Zr")])):
